@@ -39,7 +39,7 @@ def completions(p):
 FSTATES = (("none", None, False), ("open", "x", False), ("done", "x", True))
 
 
-@rule("R11.2", ["C11", "C10"], "T-FUN", floor=80)
+@rule("R11.2", ["C11", "C10", "C09"], "T-FUN", floor=80)
 def r11_2(ctx):
     """Reset-code triage in Gateway.reset_received over every reset code (all defined members and an undefined
     value) x {no, open, completed} reset waiter x {no, open, completed} start-up waiter: a waiter is completed if
@@ -84,7 +84,7 @@ def r11_2(ctx):
         ctx.require(len(fails) == 1 and fails[0].args[:1] == (Sym("code"),), "error_received", "Gateway.error_received does not report the failure", func=g)
 
 
-@rule("R11.1", ["C11", "C10"], "T-ORD", floor=4)
+@rule("R11.1", ["C11", "C10", "C09"], "T-ORD", floor=4)
 def r11_1(ctx):
     """Gateway.reset: with no request in progress it writes the RST frame (send_reset), registers the waiter
     with no await in between, and waits for it inside asyncio_timeout(RESET_TIMEOUT); a second concurrent request
@@ -115,8 +115,9 @@ def r11_1(ctx):
                     bad = "an await separates writing the RST frame from registering the waiter (a fast RSTACK would be lost)"
                 elif len(aw) != 1 or getattr(aw[0].args[0], "tag", "") != "newfut" or not any(c.endswith("asyncio_timeout") for c in aw[0].ctx):
                     bad = "the waiter is not awaited inside asyncio_timeout"
-                elif not cb or getattr(cb[0].args[0], "func", None) is None or cb[0].args[0].func.name != "_reset_cleanup":
-                    bad = "no cleanup callback on the waiter"
+                elif p.store["self"].get("_reset_future") is not None and not cb:
+                    bad = (f"reset() ends ({p.terminal} {p.value if p.terminal == 'raise' else ''}) with the waiter attribute still set and no done-callback "
+                           "that clears it: the next reset would piggy-back on a stale future and never send RST")
                 else:
                     ent = [e for e in p.events if e.kind == "enter" and e.what.endswith("asyncio_timeout")]
                     if ent[0].args[:1] != (tmo,):
@@ -125,9 +126,32 @@ def r11_1(ctx):
                 bad = f"wait outcome {aw[-1].extra if aw else None!r} but reset() {p.terminal}s"
             ctx.require(not bad, f"reset:{'piggyback' if existing else 'fresh'}", f"Gateway.reset ({'request in progress' if existing else 'idle'}): {bad}", func=f,
                         trace=p.trace(14))
-    c = repo.func(f"{UART}:Gateway._reset_cleanup")
-    for p in PX(repo).explore(c, lambda: (self_obj(gw_cls(ctx), {"_reset_future": fut("x")}), {"future": Sym("f")})):
-        ctx.require(p.store["self"].get("_reset_future") is None, "reset_cleanup", "_reset_cleanup leaves the waiter attribute set", func=c)
+    # the done-callback registered on the waiter (if that is how the attribute is cleared) really clears it
+    from ..px import Bound, Closure
+
+    px = PX(repo, models=[("*.create_future", lambda px_, t, a, k, fr: fut("newfut")), ("await:*", Outcomes(OK(True)))], inline=same_class(stop=("_reset_cleanup",)))
+    holder = {}
+
+    def setup_fresh():
+        holder["self"] = self_obj(gw_cls(ctx), {"_reset_future": None})
+        return holder["self"], {}
+
+    for p in px.explore(f, setup_fresh):
+        for e in p.events:
+            if e.kind == "call" and e.what.endswith(".add_done_callback") and e.args:
+                cbv = e.args[0]
+                me = holder["self"]
+                me.fields["_reset_future"] = fut("newfut")
+
+                def run_cb(cbv=cbv):
+                    if isinstance(cbv, Bound):
+                        return px.call_function(cbv.func, cbv.recv, [Sym("done_future")], {}, None)
+                    if isinstance(cbv, Closure):
+                        return px.call_function(cbv, None, [Sym("done_future")], {}, None)
+                    raise AnalysisError(f"done-callback of the reset waiter is {cbv!r}")
+
+                px._run(run_cb)
+                ctx.require(me.fields.get("_reset_future") is None, "reset_cleanup", "the waiter's done-callback leaves the waiter attribute set", func=f)
     w = repo.func(f"{UART}:Gateway.wait_for_startup_reset")
     ctx.fn(w)
     px = PX(repo, models=models, inline=same_class())
@@ -291,3 +315,84 @@ def r10_2(ctx):
         if g_.mod == ASH:
             ctx.require(g_.short == "AshProtocol._write_frame", f"transport.write:caller:{g_.short}", f"{g_.short} writes to the transport directly, bypassing the "
                         "closed-transport gate", func=g_, node=n)
+
+
+def _stack(ctx, callbacks=2, reset_waiter=False):
+    """The wired objects AshProtocol <-> Gateway <-> EZSP (thread-safe proxies are transparent)."""
+    repo = ctx.repo
+    ns = repo.cls(ASH, "NcpState").members()
+    tr = Obj(TypeRef("SerialTransport"), {}, tag="serial")
+    ash = Obj(ash_cls(ctx), {"_transport": tr, "_pending_data_frames": {}, "_ncp_state": ns["CONNECTED"], "_tx_seq": 3, "_rx_seq": 5, "_t_rx_ack": 1.6,
+                             "_ncp_reset_code": None}, tag="ash")
+    gw = Obj(gw_cls(ctx), {"_transport": ash, "_reset_future": fut("rf") if reset_waiter else None, "_startup_reset_future": None, "_connection_done_future": None,
+                           "_connected_future": None}, tag="gw")
+    ez = Obj(repo.cls(EZ, "EZSP"), {"_gw": gw, "_callbacks": {i: Sym(f"cb{i}") for i in range(callbacks)}, "_ezsp_event": Obj(TypeRef("asyncio.Event"), {}, tag="event"),
+                                   "_config": Sym("config"), "_protocol": Sym("protocol")}, tag="ezsp")
+    ash.fields["_ezsp_protocol"] = gw
+    gw.fields["_application"] = ez
+    return ash, gw, ez, tr
+
+
+def _stack_inline(g, aw):
+    return g.cls is not None and g.cls.name in ("AshProtocol", "Gateway", "EZSP") and not g.is_async and g.name not in ("_write_frame",)
+
+
+@rule("R10.3", ["C10"], "T-FLOW", floor=10)
+def r10_3(ctx):
+    """End-to-end notification chain over the wired AshProtocol / Gateway / EZSP objects (all three explored as one
+    program): for an ERROR frame, an unsolicited RSTACK with each non-software code, retry exhaustion, a lost
+    connection and end-of-file, with an application callback registered, every registered callback receives exactly
+    one '_reset_controller_application' request carrying the reason, EZSP has been stopped and the link closed before
+    it, and nothing raises on the way (so the request cannot be lost to an exception in close()); a deliberate close
+    (connection_lost(None)) and a software-reset acknowledgement produce no request."""
+    repo = ctx.repo
+    rc = repo.cls(NAMED, "NcpResetCode")
+    soft = rc.members()["RESET_SOFTWARE"]
+    others = [m for m in rc.canonical_members() if m.value != soft.value] + [Member(rc, "undefined_0x7f", 0x7F)]
+    scenarios = [("connection_lost(error)", "gw", "connection_lost", lambda: {"exc": Obj(TypeRef("builtins.OSError"), {}, tag="exc")}, True),
+                 ("connection_lost(None)", "gw", "connection_lost", lambda: {"exc": None}, False),
+                 ("ash.connection_lost(error)", "ash", "connection_lost", lambda: {"exc": Obj(TypeRef("builtins.OSError"), {}, tag="exc")}, True),
+                 ("ash.eof_received", "ash", "eof_received", lambda: {}, True),
+                 ("retry-exhaustion", "ash", "_enter_failed_state", lambda: {"reset_code": others[0]}, True),
+                 ("RSTACK(software), no waiter", "ash", "rstack_frame_received",
+                  lambda: {"frame": Obj(repo.cls(ASH, "RStackFrame"), {"version": 2, "reset_code": soft}, tag="frame")}, False)]
+    for m in others:
+        scenarios.append((f"ERROR({m.name})", "ash", "error_frame_received", (lambda m=m: {"frame": Obj(repo.cls(ASH, "ErrorFrame"), {"version": 2, "reset_code": m}, tag="frame")}), True))
+        scenarios.append((f"RSTACK({m.name})", "ash", "rstack_frame_received", (lambda m=m: {"frame": Obj(repo.cls(ASH, "RStackFrame"), {"version": 2, "reset_code": m}, tag="frame")}), True))
+    for name, who, meth, args, expect in scenarios:
+        for waiter in (False, True):
+            if waiter and "RSTACK" not in name and "ERROR" not in name:
+                continue
+            px = PX(repo, models=fut_models(set()) + [("*.is_closing", lambda px_, t, a, k, fr: False)], inline=_stack_inline, max_depth=8)
+            holder = {}
+
+            def entry():
+                ash, gw, ez, tr = _stack(ctx, 2, waiter)
+                holder["ez"] = ez
+                recv = {"ash": ash, "gw": gw}[who]
+                f = recv.cls.method(meth)
+                px.top_frame = None
+                return px.call_function(f, recv, [], args(), None)
+
+            for p in px._run(entry):
+                ctx.paths += 1
+                req = [e for e in p.events if e.kind == "call" and e.callee in ("cb0", "cb1")]
+                key = f"{name}{',reset pending' if waiter else ''}"
+                bad = None
+                if p.terminal != "return":
+                    bad = f"raises {p.value!r}: the failure is not delivered to the application"
+                elif expect:
+                    got = sorted((e.callee, e.args[0]) for e in req)
+                    if got != [("cb0", "_reset_controller_application"), ("cb1", "_reset_controller_application")]:
+                        bad = f"controller-reset requests delivered: {got}; every registered callback must get exactly one"
+                    else:
+                        first = p.events.index(req[0])
+                        stop = [i for i, e in enumerate(p.events) if e.kind == "call" and e.what.endswith("_ezsp_event.clear")]
+                        closed = [i for i, e in enumerate(p.events) if e.kind == "call" and e.callee == "serial.close" or (e.kind == "call" and e.what == "self._transport.close" and e.func == "AshProtocol.close")]
+                        if not stop or stop[0] > first:
+                            bad = "EZSP is not stopped before the controller-reset request"
+                        elif holder["ez"].fields.get("_gw") is not None:
+                            bad = "the gateway is not released (closed) before the controller-reset request"
+                elif req:
+                    bad = f"a controller-reset request is issued: {[e.args[0] for e in req]}"
+                ctx.require(not bad, f"chain:{name.split('(')[0]}:{'request' if expect else 'silent'}", f"{key}: {bad}", func=None, trace=p.trace(24))
